@@ -36,13 +36,17 @@ theorem name_facts_pinned :
     Facts.validatePluginNameTest = "name==\"\"||name==\".\"||name==\"..\"||strings.ContainsAny(name,\"/\\\\\\x00\")" := by
   decide
 
-/-- in `Install` every check (locating, name, new metadata, existing plugin, versions, "the
-source is not inside the plugin's own directory") comes before the removal of the old
-directory, and only the copy follows it -/
+/-- in `Install`: locating the plugin only reads (`parsePluginFromDir` modifies nothing); the
+name check and the guard "the source is not inside the plugin's own directory" come before
+the first write (`setExecutable` on the candidate of a source directory); every check (new
+metadata, existing plugin, versions) comes before the removal of the old directory, and only
+the copy follows it -/
 theorem removal_after_all_checks :
     Facts.installCalls = ["parsePluginFromDir", "parsePluginName", "isExecutableFile", "validatePluginName",
-      "NewCLIPlugin", "newPlugin.GetMetadata", "m.Get", "existingPlugin.GetMetadata",
-      "semver.ComparePluginVersion", "isPathWithin", "m.Uninstall", "file.CopyToDir", "file.CopyDirToDir"] ∧
+      "isPathWithin", "isExecutableFile", "setExecutable", "NewCLIPlugin", "newPlugin.GetMetadata", "m.Get",
+      "existingPlugin.GetMetadata", "semver.ComparePluginVersion", "m.Uninstall", "file.CopyToDir",
+      "file.CopyDirToDir"] ∧
+    Facts.parseDirWrites = [] ∧
     Facts.installWithinGuard = "isPathWithin(installOpts.PluginPath,pluginDirPath)" ∧
     Facts.isPathWithinCalls = ["filepath.Rel(resolve(dir),resolve(path))",
       "strings.HasPrefix(rel,\"..\"+string(filepath.Separator))"] ∧
@@ -71,7 +75,7 @@ theorem versionCheck_cases (ex : Option Text) (ow : Bool) (vn : Text) :
 
 /-- case analysis shared by the clause proofs -/
 macro "install_cases" R:ident op:ident c:ident : tactic => `(tactic| (
-  unfold specStep $c
+  unfold specStep1 $c
   cases hk : Op.kind $op with
   | uninstall => simp [isInstall, hk, mkStep]
   | plant => simp [isInstall, hk, mkStep]
@@ -81,21 +85,19 @@ macro "install_cases" R:ident op:ident c:ident : tactic => `(tactic| (
     | none => simp [isInstall, hk, mkStep, hn]
     | some nw =>
       simp only [ruleR]
-      by_cases hio : insideOwn $op nw = true
-      all_goals (
-        cases hl : existingR $R nw.name with
-        | none => simp [isInstall, hk, mkStep, hn, hl, hio]
-        | some p =>
-          obtain ⟨pn, pf, pv⟩ := p
-          rcases versionCheck_cases pv (Op.overwrite $op) nw.version with
-            ⟨ho, h⟩ | ⟨ho, hv, h⟩ | ⟨ho, vo, hv, h | h | h | h⟩
-          all_goals (try subst hv)
-          all_goals (rw [ho] at h)
-          all_goals simp [isInstall, hk, mkStep, h, hn, hl, ho, higher, relTo, hio])))
+      cases hl : existingR $R nw.name with
+      | none => simp [isInstall, hk, mkStep, hn, hl]
+      | some p =>
+        obtain ⟨pn, pf, pv⟩ := p
+        rcases versionCheck_cases pv (Op.overwrite $op) nw.version with
+          ⟨ho, h⟩ | ⟨ho, hv, h⟩ | ⟨ho, vo, hv, h | h | h | h⟩
+        all_goals (try subst hv)
+        all_goals (rw [ho] at h)
+        all_goals simp [isInstall, hk, mkStep, h, hn, hl, ho, higher, relTo]))
 
 /-- the root of the observable-level step is `R`, `R` minus a name, or that plus one entry -/
 macro "step_shapes" R:ident op:ident c:ident : tactic => `(tactic| (
-  unfold specStep $c
+  unfold specStep1 $c
   cases hk : Op.kind $op with
   | uninstall =>
     simp only []
@@ -111,32 +113,31 @@ macro "step_shapes" R:ident op:ident c:ident : tactic => `(tactic| (
     | none => simp [mkStep, isInstall, hk]
     | some nw =>
       simp only []
-      by_cases hio : insideOwn $op nw = true <;>
-        cases hr : ruleR (existingR $R nw.name) (Op.overwrite $op) nw <;> simp [mkStep, isInstall, hk, hio]))
+      cases hr : ruleR (existingR $R nw.name) (Op.overwrite $op) nw <;> simp [mkStep, isInstall, hk]))
 
-theorem spec_refusedNoop (R : List PluginObs) (op : Op) : cRefusedNoop (R, op, specStep R op) = true := by
+theorem spec_refusedNoop (R : List PluginObs) (op : Op) : cRefusedNoop (R, op, specStep1 R op) = true := by
   step_shapes R op cRefusedNoop
 
-theorem spec_installExact (R : List PluginObs) (op : Op) : cInstallExact (R, op, specStep R op) = true := by
+theorem spec_installExact (R : List PluginObs) (op : Op) : cInstallExact (R, op, specStep1 R op) = true := by
   install_cases R op cInstallExact
 
-theorem spec_replaceOnlyIf (R : List PluginObs) (op : Op) : cReplaceOnlyIf (R, op, specStep R op) = true := by
+theorem spec_replaceOnlyIf (R : List PluginObs) (op : Op) : cReplaceOnlyIf (R, op, specStep1 R op) = true := by
   install_cases R op cReplaceOnlyIf
 
 theorem spec_installWhenAllowed (R : List PluginObs) (op : Op) :
-    cInstallWhenAllowed (R, op, specStep R op) = true := by
+    cInstallWhenAllowed (R, op, specStep1 R op) = true := by
   install_cases R op cInstallWhenAllowed
 
-theorem spec_listed (R : List PluginObs) (op : Op) : cListed (R, op, specStep R op) = true := by
+theorem spec_listed (R : List PluginObs) (op : Op) : cListed (R, op, specStep1 R op) = true := by
   step_shapes R op cListed
 
-theorem spec_uninstall (R : List PluginObs) (op : Op) : cUninstall (R, op, specStep R op) = true := by
+theorem spec_uninstall (R : List PluginObs) (op : Op) : cUninstall (R, op, specStep1 R op) = true := by
   step_shapes R op cUninstall
 
 /-- where the entries of the root after a step come from -/
-theorem specStep_root_mem (R : List PluginObs) (op : Op) (p : PluginObs) (hp : p ∈ (specStep R op).root) :
+theorem specStep1_root_mem (R : List PluginObs) (op : Op) (p : PluginObs) (hp : p ∈ (specStep1 R op).root) :
     p.version.isSome = true ∨ p ∈ R ∨ touches op p.name = true := by
-  unfold specStep at hp
+  unfold specStep1 at hp
   cases hk : op.kind with
   | install =>
     simp only [hk] at hp
@@ -147,12 +148,10 @@ theorem specStep_root_mem (R : List PluginObs) (op : Op) (p : PluginObs) (hp : p
       cases hr : ruleR (existingR R nw.name) op.overwrite nw with
       | error e => simp only [hr, mkStep] at hp; exact Or.inr (Or.inl hp)
       | ok ex =>
-        by_cases hio : insideOwn op nw = true
-        · simp only [hr, mkStep, hio, if_true] at hp; exact Or.inr (Or.inl hp)
-        · simp only [hr, mkStep, hio] at hp
-          rcases mem_putBy PluginObs.name hp with rfl | hp
-          · exact Or.inl rfl
-          · exact Or.inr (Or.inl (List.mem_filter.1 hp).1)
+        simp only [hr, mkStep] at hp
+        rcases mem_putBy PluginObs.name hp with rfl | hp
+        · exact Or.inl rfl
+        · exact Or.inr (Or.inl (List.mem_filter.1 hp).1)
   | uninstall =>
     simp only [hk] at hp
     by_cases hv : validName op.name = true
@@ -179,17 +178,17 @@ theorem specStep_root_mem (R : List PluginObs) (op : Op) (p : PluginObs) (hp : p
       exact Or.inr (Or.inr (by simp [touches, hk, hn, this]))
     · simp only [hn]; exact Or.inr (Or.inl hq)
 
-theorem spec_answers (R : List PluginObs) (op : Op) : cAnswers (R, op, specStep R op) = true := by
+theorem spec_answers (R : List PluginObs) (op : Op) : cAnswers (R, op, specStep1 R op) = true := by
   unfold cAnswers
   simp only [List.all_eq_true, Bool.or_eq_true]
   intro p hp
-  rcases specStep_root_mem R op p hp with h | h | h
+  rcases specStep1_root_mem R op p hp with h | h | h
   · exact Or.inl (Or.inl h)
   · exact Or.inl (Or.inr (List.contains_iff_mem.2 h))
   · exact Or.inr h
 
-theorem spec_refusalClass (R : List PluginObs) (op : Op) : cRefusalClass (R, op, specStep R op) = true := by
-  unfold specStep cRefusalClass
+theorem spec_refusalClass (R : List PluginObs) (op : Op) : cRefusalClass (R, op, specStep1 R op) = true := by
+  unfold specStep1 cRefusalClass
   cases hk : op.kind with
   | uninstall =>
     simp only []
@@ -205,17 +204,15 @@ theorem spec_refusalClass (R : List PluginObs) (op : Op) : cRefusalClass (R, op,
     | none => simp [isInstall, hk, mkStep, hn]
     | some nw =>
       simp only [ruleR]
-      by_cases hio : insideOwn op nw = true
-      all_goals (
-        cases hl : existingR R nw.name with
-        | none => simp [isInstall, hk, mkStep, hn, hl, hio]
-        | some p =>
-          obtain ⟨pn, pf, pv⟩ := p
-          rcases versionCheck_cases pv op.overwrite nw.version with
-            ⟨ho, h⟩ | ⟨ho, hv, h⟩ | ⟨ho, vo, hv, h | h | h | h⟩
-          all_goals (try subst hv)
-          all_goals (rw [ho] at h)
-          all_goals simp [isInstall, hk, mkStep, h, hn, hl, ho, higher, relTo, hio])
+      cases hl : existingR R nw.name with
+      | none => simp [isInstall, hk, mkStep, hn, hl]
+      | some p =>
+        obtain ⟨pn, pf, pv⟩ := p
+        rcases versionCheck_cases pv op.overwrite nw.version with
+          ⟨ho, h⟩ | ⟨ho, hv, h⟩ | ⟨ho, vo, hv, h | h | h | h⟩
+        all_goals (try subst hv)
+        all_goals (rw [ho] at h)
+        all_goals simp [isInstall, hk, mkStep, h, hn, hl, ho, higher, relTo]
 
 theorem specRun_length : ∀ (ops : List Op) (R : List PluginObs), (specRun R ops).length = ops.length := by
   intro ops; induction ops with
@@ -224,14 +221,15 @@ theorem specRun_length : ∀ (ops : List Op) (R : List PluginObs), (specRun R op
 
 /-- a clause that every observable-level step satisfies holds along every run -/
 theorem triples_specRun (P : Triple → Bool)
-    (hP : ∀ R op, P (R, op, specStep R op) = true) :
+    (hP : ∀ R op, P (R, op, specStep1 R op) = true) :
     ∀ (ops : List Op) (R : List PluginObs), (triples ops (specRun R ops) R).all P = true := by
   intro ops
   induction ops with
   | nil => intro R; rfl
   | cons op ops ih =>
     intro R
-    simp only [specRun, triples, List.all_cons, hP R op, Bool.true_and]
+    have h1 : P (touchR R op, op, specStep R op) = true := hP (touchR R op) op
+    simp only [specRun, triples, List.all_cons, h1, Bool.true_and]
     exact ih _
 
 /-- `ComparePluginVersion` fails exactly when one of the two strings is not a version -/
@@ -432,32 +430,6 @@ theorem build_metadata_ignored (s b : Text) (hs : '+' ∉ s)
 
 /-! ## 3. installation: the readable theorems on the stateful model -/
 
-/-- **refused_is_noop**: whatever the refusal (unusable source, invalid name, invalid or
-misnamed metadata, lower / equal / invalid version, missing plugin on uninstall), the plugin
-root is exactly what it was -/
-theorem refused_is_noop (st : State) (op : Op) (h : (step st op).1.err ≠ .ok) : (step st op).2 = st := by
-  unfold step at h ⊢
-  cases hk : op.kind with
-  | install =>
-    simp only [hk, install] at h ⊢
-    cases hn : newOf op (locate op) with
-    | none => rfl
-    | some nw =>
-      simp only [hn] at h ⊢
-      cases hr : versionRule st op.overwrite nw with
-      | error e => rfl
-      | ok ex =>
-        by_cases hio : insideOwn op nw = true
-        · simp [hio]
-        · simp [hr, hio] at h
-  | uninstall =>
-    simp only [hk, uninstall] at h ⊢
-    by_cases hv : validName op.name = true
-    · cases hf : findBy Plugin.name op.name st <;> simp [hv, hf] at h ⊢
-    · simp [hv]
-  | plant => simp [hk] at h
-  | rmexe => simp [hk] at h
-
 theorem versionCheck_err_ne_ok {ex : Option Text} {ow : Bool} {vn : Text} {e : Err}
     (h : versionCheck ex ow vn = .error e) : e ≠ .ok := by
   rcases versionCheck_cases ex ow vn with
@@ -472,38 +444,114 @@ theorem versionRule_err_ne_ok {st : State} {ow : Bool} {nw : New} {e : Err}
   | none => simp [hg] at h
   | some f => simp only [hg] at h; exact versionCheck_err_ne_ok h
 
-/-- with a usable source that is not inside the plugin's own directory, the outcome of
-Install is the outcome of the existence / version checks -/
-theorem install_err (st : State) (op : Op) (nw : New) (hn : specNew op = some nw)
-    (ho : insideOwn op nw = false) :
-    (install st op).1.err = (match versionRule st op.overwrite nw with | .error e => e | .ok _ => .ok) := by
-  unfold install
+/-! `install st op = install1 (touchSt st op) op`: `touchSt` is the source chmod (only visible
+when the source directory lies in the plugin root, see `srcChmod`), `install1` everything
+else. The theorems about `install1` hold for every root `st`. -/
+
+theorem install_eq (st : State) (op : Op) : install st op = install1 (touchSt st op) op := rfl
+
+/-- a source outside the plugin root: the root is not touched before the checks -/
+theorem touchSt_outside (st : State) (op : Op) (h : op.srcIn = []) : touchSt st op = st := by
+  unfold touchSt srcChmod
+  cases locate op with
+  | none => rfl
+  | some l => simp [h]
+
+/-- the source chmod never changes which plugins exist nor what they answer -/
+theorem touchR_versions (R : List PluginObs) (op : Op) :
+    (touchR R op).map (fun p => (p.name, p.version)) = R.map (fun p => (p.name, p.version)) := by
+  unfold touchR
+  cases srcChmod op (specLocate op) with
+  | none => rfl
+  | some xf =>
+    obtain ⟨X, fn⟩ := xf
+    simp only [chmodInR, List.map_map]
+    apply List.map_congr_left
+    intro p _
+    simp only [Function.comp]
+    split <;> rfl
+
+/-- ... and it only happens once the name is accepted and the source is not inside the
+plugin's own directory (the guard comes first) -/
+theorem srcChmod_some {op : Op} {loc : Located} {X fn : Text} (h : srcChmod op (some loc) = some (X, fn)) :
+    validName loc.name = true ∧ insideOwn op loc.name = false ∧ loc.chmod = true ∧
+      X = op.srcIn ∧ fn = loc.exe.name := by
+  unfold srcChmod at h
+  simp only at h
+  split at h
+  · rename_i hc
+    cases h
+    simp only [Bool.and_eq_true, Bool.not_eq_true'] at hc
+    exact ⟨hc.1.1.1.2, hc.1.1.2, hc.1.2, rfl, rfl⟩
+  · cases h
+
+theorem install1_refused_noop (st : State) (op : Op) (h : (install1 st op).1.err ≠ .ok) :
+    (install1 st op).2 = st := by
+  unfold install1 at h ⊢
+  cases hn : newOf op (locate op) with
+  | none => rfl
+  | some nw =>
+    simp only [hn] at h ⊢
+    cases hr : versionRule st op.overwrite nw with
+    | error e => rfl
+    | ok ex => simp [hr] at h
+
+/-- **refused_is_noop**: whatever the refusal (unusable source, invalid name, source inside
+the plugin's own directory, invalid or misnamed metadata, lower / equal / invalid version,
+missing plugin on uninstall), the plugin root is what it was - up to the source chmod
+(`touchSt`), which is the identity unless the source directory itself lies in the root -/
+theorem refused_is_noop (st : State) (op : Op) (h : (step st op).1.err ≠ .ok) :
+    (step st op).2 = touchSt st op := by
+  cases hk : op.kind with
+  | install =>
+    simp only [step, hk, install] at h ⊢
+    exact install1_refused_noop _ op h
+  | uninstall =>
+    rw [touchSt_noninstall st op (by rw [hk]; exact fun e => by cases e)]
+    simp only [step, hk, uninstall] at h ⊢
+    by_cases hv : validName op.name = true
+    · cases hf : findBy Plugin.name op.name st <;> simp [hv, hf] at h ⊢
+    · simp [hv]
+  | plant => simp [step, hk] at h
+  | rmexe => simp [step, hk] at h
+
+/-- the usual case - the source lies outside the plugin root: exactly unchanged -/
+theorem refused_is_noop_outside (st : State) (op : Op) (ho : op.srcIn = [])
+    (h : (step st op).1.err ≠ .ok) : (step st op).2 = st := by
+  rw [refused_is_noop st op h, touchSt_outside st op ho]
+
+/-- with a usable source the outcome of Install is the outcome of the existence / version checks -/
+theorem install_err (st : State) (op : Op) (nw : New) (hn : specNew op = some nw) :
+    (install1 st op).1.err = (match versionRule st op.overwrite nw with | .error e => e | .ok _ => .ok) := by
+  unfold install1
   rw [locate_eq_spec]
   have hn' : newOf op (specLocate op) = some nw := hn
   simp only [hn']
-  cases versionRule st op.overwrite nw <;> simp [ho]
+  cases versionRule st op.overwrite nw <;> rfl
 
 /-- **a source inside the plugin's own installation directory** (the directory itself, its
 executable, reached directly or through a symbolic link) **is refused, with or without
-overwrite, and nothing changes** - the clean-up would remove the source before the copy -/
-theorem own_directory_source_refused (st : State) (op : Op) (nw : New) (hn : specNew op = some nw)
-    (ho : insideOwn op nw = true) :
-    (install st op).1.err ≠ .ok ∧ (install st op).2 = st := by
-  unfold install
-  rw [locate_eq_spec]
-  have hn' : newOf op (specLocate op) = some nw := hn
-  simp only [hn']
-  cases hr : versionRule st op.overwrite nw with
-  | error e => exact ⟨versionRule_err_ne_ok hr, rfl⟩
-  | ok ex => simp [ho]
+overwrite, before anything is touched** - not even the executable bit of a candidate -/
+theorem own_directory_source_refused (st : State) (op : Op) (loc : Located)
+    (hl : specLocate op = some loc) (ho : insideOwn op loc.name = true) :
+    (install st op).1.err = .other ∧ (install st op).2 = st := by
+  have hn : newOf op (locate op) = none := by
+    rw [locate_eq_spec, hl]
+    unfold newOf
+    by_cases hv : validName loc.name = true <;> simp [hv, ho]
+  have ht : touchSt st op = st := by
+    unfold touchSt
+    rw [locate_eq_spec, hl]
+    simp [srcChmod, ho]
+  simp [install, ht, install1, hn]
 
 /-- **replace_iff**: an existing, answering plugin (its executable is there and reports
 version `vo`) is replaced by a usable source of the same name iff overwrite is requested or
 the new version is strictly higher -/
 theorem replace_iff (st : State) (op : Op) (nw : New) (hn : specNew op = some nw)
-    (hout : insideOwn op nw = false) (f : File) (hf : getExe st nw.name = some f) (vo : Text) (ha : metadata nw.name f = some vo) :
-    (install st op).1.err = .ok ↔ (op.overwrite = true ∨ compareVersions nw.version vo = some .gt) := by
-  rw [install_err st op nw hn hout]
+    (f : File) (hf : getExe st nw.name = some f) (vo : Text) (ha : metadata nw.name f = some vo) :
+    (install1 st op).1.err = .ok ↔ (op.overwrite = true ∨ compareVersions nw.version vo = some .gt) := by
+  rw [install_err st op nw hn]
   simp only [versionRule, hf, ha]
   rcases versionCheck_cases (some vo) op.overwrite nw.version with
     ⟨ho, h⟩ | ⟨ho, hv', h⟩ | ⟨ho, vo', hv', ⟨h1, h⟩ | ⟨h1, h⟩ | ⟨h1, h⟩ | ⟨h1, h⟩⟩
@@ -515,25 +563,26 @@ theorem replace_iff (st : State) (op : Op) (nw : New) (hn : specNew op = some nw
 /-- an existing plugin whose executable is there but does not answer (malfunctioning) is
 replaced iff overwrite is requested -/
 theorem malfunctioning_replaced_iff_overwrite (st : State) (op : Op) (nw : New) (hn : specNew op = some nw)
-    (hout : insideOwn op nw = false) (f : File) (hf : getExe st nw.name = some f) (ha : metadata nw.name f = none) :
-    (install st op).1.err = .ok ↔ op.overwrite = true := by
-  rw [install_err st op nw hn hout]
+    (f : File) (hf : getExe st nw.name = some f) (ha : metadata nw.name f = none) :
+    (install1 st op).1.err = .ok ↔ op.overwrite = true := by
+  rw [install_err st op nw hn]
   simp only [versionRule, hf, ha]
   cases op.overwrite <;> simp [versionCheck]
 
 /-- no plugin of that name, or only a stale directory without its executable (interrupted
 installation, deleted binary): a usable source installs, with or without overwrite -/
 theorem absent_or_stale_installs (st : State) (op : Op) (nw : New)
-    (hn : specNew op = some nw) (hout : insideOwn op nw = false) (hp : getExe st nw.name = none) :
-    (install st op).1.err = .ok := by
-  rw [install_err st op nw hn hout]
+    (hn : specNew op = some nw) (hp : getExe st nw.name = none) :
+    (install1 st op).1.err = .ok := by
+  rw [install_err st op nw hn]
   simp [versionRule, hp]
 
-/-- a successful Install installed the plugin the source declares -/
-theorem install_ok_inv (st : State) (op : Op) (h : (install st op).1.err = .ok) :
-    ∃ nw, specNew op = some nw ∧ (install st op).2 = replace st nw ∧
-      (install st op).1.new = some nw.version ∧ insideOwn op nw = false := by
-  unfold install at h ⊢
+/-- a successful Install installed the plugin the source declares; the source was not inside
+the plugin's own directory -/
+theorem install_ok_inv (st : State) (op : Op) (h : (install1 st op).1.err = .ok) :
+    ∃ nw, specNew op = some nw ∧ (install1 st op).2 = replace st nw ∧
+      (install1 st op).1.new = some nw.version ∧ insideOwn op nw.name = false := by
+  unfold install1 at h ⊢
   rw [locate_eq_spec] at h ⊢
   cases hn : newOf op (specLocate op) with
   | none => simp [hn] at h
@@ -543,12 +592,7 @@ theorem install_ok_inv (st : State) (op : Op) (h : (install st op).1.err = .ok) 
     | error e =>
       simp only [hr] at h
       exact absurd h (versionRule_err_ne_ok hr)
-    | ok ex =>
-      by_cases hio : insideOwn op nw = true
-      · simp [hr, hio] at h
-      · have hio' : insideOwn op nw = false := by simpa using hio
-        simp only [hio']
-        exact ⟨nw, hn, rfl, rfl, hio'⟩
+    | ok ex => exact ⟨nw, hn, rfl, rfl, newOf_not_inside hn⟩
 
 theorem topFiles_sorted (es : List Entry) : Sorted File.name (topFiles es) := sorted_sortBy File.name _
 
@@ -577,15 +621,15 @@ theorem copied_dir_obs (op : Op) (loc : Located) (hd : op.srcIsDir = true) :
 /-- **installed_exactly_toplevel**: after a successful Install the plugin's directory holds
 exactly the regular top-level files of the source directory (same names, same contents),
 resp. exactly the source file; every other plugin is untouched -/
-theorem installed_exactly_toplevel (st : State) (op : Op) (h : (install st op).1.err = .ok) :
+theorem installed_exactly_toplevel (st : State) (op : Op) (h : (install1 st op).1.err = .ok) :
     ∃ nw, specNew op = some nw ∧
-      findBy Plugin.name nw.name (install st op).2 = some ⟨nw.name, nw.files⟩ ∧
+      findBy Plugin.name nw.name (install1 st op).2 = some ⟨nw.name, nw.files⟩ ∧
       (op.srcIsDir = true →
         nw.files.map (fun f => (f.name, f.cid, f.script)) =
           (topFiles op.entries).map (fun f => (f.name, f.cid, f.script))) ∧
       (op.srcIsDir = false → ∃ e, op.entries = [e] ∧ nw.files = [e.toFile]) ∧
-      (∀ k, k ≠ nw.name → findBy Plugin.name k (install st op).2 = findBy Plugin.name k st) := by
-  obtain ⟨nw, hn, hst, _⟩ := install_ok_inv st op h
+      (∀ k, k ≠ nw.name → findBy Plugin.name k (install1 st op).2 = findBy Plugin.name k st) := by
+  obtain ⟨nw, hn, hst, _, _⟩ := install_ok_inv st op h
   obtain ⟨loc, hl, hv, hm, hname, hfiles⟩ := newOf_some hn
   refine ⟨nw, hn, ?_, ?_, ?_, ?_⟩
   · rw [hst]; unfold replace; exact findBy_putBy_self Plugin.name ⟨nw.name, nw.files⟩ _
@@ -607,14 +651,14 @@ theorem installed_exactly_toplevel (st : State) (op : Op) (h : (install st op).1
 /-- **then_listable_fetchable_uninstallable**: after a successful Install the plugin is
 listed, `Get` + `GetMetadata` answer with the new version, and `Uninstall` by its name
 succeeds and removes it (and nothing else) -/
-theorem then_listable_fetchable_uninstallable (st : State) (op : Op) (h : (install st op).1.err = .ok) :
+theorem then_listable_fetchable_uninstallable (st : State) (op : Op) (h : (install1 st op).1.err = .ok) :
     ∃ nw, specNew op = some nw ∧
-      nw.name ∈ ((observe (install st op).2).map (·.name)) ∧
-      (getExe (install st op).2 nw.name).bind (metadata nw.name) = some nw.version ∧
-      (uninstall (install st op).2 nw.name).1.err = .ok ∧
-      findBy Plugin.name nw.name (uninstall (install st op).2 nw.name).2 = none ∧
+      nw.name ∈ ((observe (install1 st op).2).map (·.name)) ∧
+      (getExe (install1 st op).2 nw.name).bind (metadata nw.name) = some nw.version ∧
+      (uninstall (install1 st op).2 nw.name).1.err = .ok ∧
+      findBy Plugin.name nw.name (uninstall (install1 st op).2 nw.name).2 = none ∧
       (∀ k, k ≠ nw.name →
-        findBy Plugin.name k (uninstall (install st op).2 nw.name).2 = findBy Plugin.name k st) := by
+        findBy Plugin.name k (uninstall (install1 st op).2 nw.name).2 = findBy Plugin.name k st) := by
   obtain ⟨nw, hn, hfind, _, _, hother⟩ := installed_exactly_toplevel st op h
   have hv := newOf_valid hn
   have hans := answer_new hn
@@ -653,14 +697,31 @@ theorem dir_locates_its_executable (es : List Entry) (f : File) (h : execs (topF
 /-- as coded: a source directory given as a symbolic link is not walked, so it is refused
 (and, like every refusal, changes nothing) -/
 theorem linked_directory_source_unusable (st : State) (op : Op) (hk : op.srcIsDir = true)
-    (hl : op.viaLink = true) : (install st op).1.err = .other ∧ (install st op).2 = st := by
-  simp [install, locate, hk, hl, newOf]
+    (hl : op.viaLink = true) : (install1 st op).1.err = .other ∧ (install1 st op).2 = st := by
+  simp [install1, locate, hk, hl, newOf]
+
+/-- name and version of what a source would install depend on the operation only through the
+located executable and on where the source lies -/
+theorem newOf_name_version (op op' : Op) (l : Option Located) (h : op.srcIn = op'.srcIn) :
+    (newOf op l).map (fun n => (n.name, n.version)) = (newOf op' l).map (fun n => (n.name, n.version)) := by
+  unfold newOf
+  cases l with
+  | none => rfl
+  | some l =>
+    simp only
+    have hio : insideOwn op' l.name = insideOwn op l.name := by simp [insideOwn, h]
+    rw [hio]
+    by_cases hv : validName l.name = true
+    · by_cases hi : insideOwn op l.name = true
+      · simp [hv, hi]
+      · cases hm : metadata l.name l.exe <;> simp [hv, hi, hm]
+    · simp [hv]
 
 theorem dir_equals_file_source (st : State) (ow : Bool) (base inn : Text) (lnk : Bool) (es : List Entry)
     (f : File) (h : execs (topFiles es) = [f]) (e : Entry) (he : e.kind = .file) (hf : e.toFile = f) :
     let opD : Op := ⟨.install, [], ow, true, base, inn, false, es⟩   -- not through a link: see `linked_directory_source_unusable`
     let opF : Op := ⟨.install, [], ow, false, f.name, inn, lnk, [e]⟩
-    (install st opD).1 = (install st opF).1 ∧
+    (install1 st opD).1 = (install1 st opF).1 ∧
     (∀ nw, specNew opD = some nw →
         ∃ nw', specNew opF = some nw' ∧ nw'.name = nw.name ∧ nw'.version = nw.version ∧
           nw'.files = [f] ∧ nw.files = topFiles es ∧
@@ -685,28 +746,24 @@ theorem dir_equals_file_source (st : State) (ow : Bool) (base inn : Text) (lnk :
     obtain ⟨hexe, hpn, hch⟩ := mkLocated_some hl'
     have hexe' : loc.exe = f := by rw [hexe]; cases f; simp
     have hfc := find_copied hl
+    have hio : insideOwn opF loc.name = false := by
+      have := newOf_not_inside hn
+      simpa [insideOwn, opD, opF, hname] using this
     refine ⟨⟨loc.name, nw.version, [loc.exe]⟩, ?_, hname.symm, rfl, by simp [hexe'], ?_, ?_⟩
-    · simp [specNew, newOf, hmk, hl', hv, hm, copied, opF]
+    · simp [specNew, newOf, hmk, hl', hv, hm, copied, opF, hio]
     · rw [hfiles]; simp [copied, opD, hch]
     · rw [hname, hfiles, hfc, hexe']
   refine ⟨?_, key⟩
   -- the outcome depends on the source only through the located name and version
-  simp only [install, locate_eq_spec]
+  simp only [install1, locate_eq_spec]
   cases hnD : newOf opD (specLocate opD) with
   | none =>
+    have h2 := newOf_name_version opD opF (specLocate opD) rfl
+    rw [hnD, hloc] at h2
     have : newOf opF (specLocate opF) = none := by
-      rw [← hloc]
-      unfold newOf at hnD ⊢
-      cases hl : specLocate opD with
+      cases hx : newOf opF (specLocate opF) with
       | none => rfl
-      | some l =>
-        simp only [hl] at hnD ⊢
-        by_cases hv : validName l.name = true
-        · simp only [hv, Bool.not_true, Bool.false_eq_true, if_false] at hnD ⊢
-          cases hm : metadata l.name l.exe with
-          | none => rfl
-          | some v => simp [hm] at hnD
-        · simp [hv]
+      | some x => rw [hx] at h2; cases h2
     simp [this]
   | some nw =>
     obtain ⟨nw', hn', hname, hver, _⟩ := key nw hnD
@@ -715,9 +772,7 @@ theorem dir_equals_file_source (st : State) (ow : Bool) (base inn : Text) (lnk :
     have : versionRule st opD.overwrite nw = versionRule st opF.overwrite nw' := by
       simp [versionRule, hname, hver, opD, opF]
     rw [this]
-    have hio : insideOwn opD nw = insideOwn opF nw' := by simp [insideOwn, opD, opF, hname]
-    cases versionRule st opF.overwrite nw' <;> simp [hver, hio]
-    split <;> rfl
+    cases versionRule st opF.overwrite nw' <;> simp [hver]
 
 /-! ### invariants over arbitrary operation sequences -/
 
@@ -740,29 +795,27 @@ theorem sorted_copied (op : Op) (loc : Located) : Sorted File.name (copied op lo
     rw [ha, ha]; exact hab
   · simp [Sorted]
 
-/-- the state after a step: unchanged, minus one name, that plus one directory, or `rmexe` -/
+/-- the state after a step: the (source-chmod-touched) state, that minus one name, that plus
+one directory, or `rmexe` -/
 theorem step_state_cases (st : State) (op : Op) :
-    (step st op).2 = st ∨ (∃ n, (step st op).2 = delBy Plugin.name n st) ∨
-    (∃ nw, specNew op = some nw ∧ op.kind = .install ∧ (step st op).2 = replace st nw) ∨
+    (step st op).2 = touchSt st op ∨ (∃ n, (step st op).2 = delBy Plugin.name n st) ∨
+    (∃ nw, specNew op = some nw ∧ op.kind = .install ∧ (step st op).2 = replace (touchSt st op) nw) ∨
     (op.kind = .plant ∧ validName op.name = true ∧
       (step st op).2 = putBy Plugin.name ⟨op.name, topFiles op.entries⟩ (delBy Plugin.name op.name st)) ∨
     (op.kind = .rmexe ∧ (step st op).2 = rmexe st op.name) := by
-  unfold step
   cases hk : op.kind with
   | install =>
-    simp only [install, locate_eq_spec]
+    simp only [step, hk, install, install1, locate_eq_spec]
     cases hn : newOf op (specLocate op) with
     | none => exact Or.inl rfl
     | some nw =>
       simp only []
-      cases versionRule st op.overwrite nw with
+      cases versionRule (touchSt st op) op.overwrite nw with
       | error e => exact Or.inl rfl
-      | ok ex =>
-        by_cases hio : insideOwn op nw = true
-        · simp [hio]
-        · refine Or.inr (Or.inr (Or.inl ⟨nw, hn, trivial, ?_⟩)); simp [hio]
+      | ok ex => exact Or.inr (Or.inr (Or.inl ⟨nw, hn, trivial, rfl⟩))
   | uninstall =>
-    simp only [uninstall]
+    rw [touchSt_noninstall st op (by rw [hk]; exact fun e => by cases e)]
+    simp only [step, hk, uninstall]
     by_cases hv : validName op.name = true
     · cases hf : findBy Plugin.name op.name st
       · simp [hv, hf]
@@ -770,33 +823,91 @@ theorem step_state_cases (st : State) (op : Op) :
         exact Or.inr (Or.inl ⟨_, rfl⟩)
     · simp [hv]
   | plant =>
-    simp only [plant]
+    rw [touchSt_noninstall st op (by rw [hk]; exact fun e => by cases e)]
+    simp only [step, hk, plant]
     by_cases hv : validName op.name = true
     · simp only [hv, Bool.not_true, Bool.false_eq_true, if_false]
       refine Or.inr (Or.inr (Or.inr (Or.inl ?_))); simp
     · simp [hv]
-  | rmexe => exact Or.inr (Or.inr (Or.inr (Or.inr ⟨rfl, rfl⟩)))
+  | rmexe => exact Or.inr (Or.inr (Or.inr (Or.inr ⟨rfl, by simp [step, hk]⟩)))
+
+/-- members of the touched state: the same directory, possibly with one more executable bit,
+answering exactly what it answered -/
+theorem mem_touchSt {st : State} {op : Op} {p : Plugin} (hp : p ∈ touchSt st op) :
+    ∃ q ∈ st, q.name = p.name ∧ answer q = answer p ∧
+      (Sorted File.name q.files → Sorted File.name p.files) := by
+  unfold touchSt at hp
+  rw [locate_eq_spec] at hp
+  cases hl : specLocate op with
+  | none => simp only [hl, srcChmod] at hp; exact ⟨p, hp, rfl, rfl, id⟩
+  | some loc =>
+    simp only [hl] at hp
+    cases hc : srcChmod op (some loc) with
+    | none => simp only [hc] at hp; exact ⟨p, hp, rfl, rfl, id⟩
+    | some xf =>
+      obtain ⟨X, fn⟩ := xf
+      simp only [hc, chmodIn, List.mem_map] at hp
+      obtain ⟨q, hq, rfl⟩ := hp
+      by_cases hX : (q.name == X) = true
+      · have hXe : q.name = X := by simpa using hX
+        simp only [hX, if_true]
+        refine ⟨q, hq, rfl, ?_, ?_⟩
+        · exact (answer_chmod q fn (by rw [hXe]; exact srcChmod_ne hl hc)).symm
+        · intro hs
+          unfold Sorted
+          rw [List.pairwise_map]
+          refine List.Pairwise.imp ?_ hs
+          intro a b hab
+          have hn : ∀ g : File, (if (g.name == fn) = true then { g with exec := true } else g).name = g.name := by
+            intro g; split <;> rfl
+          rw [hn, hn]; exact hab
+      · simp only [hX]; exact ⟨q, hq, rfl, rfl, id⟩
+
+theorem wf_touchSt {st : State} (h : WFState st) (op : Op) : WFState (touchSt st op) := by
+  obtain ⟨hs, hp⟩ := h
+  constructor
+  · unfold touchSt
+    cases srcChmod op (locate op) with
+    | none => exact hs
+    | some xf =>
+      obtain ⟨X, fn⟩ := xf
+      simp only [chmodIn]
+      unfold Sorted
+      rw [List.pairwise_map]
+      refine List.Pairwise.imp ?_ hs
+      intro a b hab
+      have hn : ∀ q : Plugin, (if (q.name == X) = true then
+          { q with files := q.files.map fun f => if f.name == fn then { f with exec := true } else f } else q).name = q.name := by
+        intro q; split <;> rfl
+      rw [hn, hn]; exact hab
+  · intro p hmem
+    obtain ⟨q, hq, hname, _, hsf⟩ := mem_touchSt hmem
+    obtain ⟨h1, h2⟩ := hp q hq
+    exact ⟨by rw [← hname]; exact h1, hsf h2⟩
 
 theorem wf_step {st : State} (h : WFState st) (op : Op) : WFState (step st op).2 := by
+  have ht := wf_touchSt h op
   obtain ⟨hs, hp⟩ := h
-  have hdel : ∀ n, WFState (delBy Plugin.name n st) := fun n =>
-    ⟨sorted_delBy Plugin.name _ hs, fun p hm => hp p (List.mem_filter.1 hm).1⟩
+  have hdel : ∀ (s : State) (n : Text), WFState s → WFState (delBy Plugin.name n s) := fun s n hw =>
+    ⟨sorted_delBy Plugin.name _ hw.1, fun p hm => hw.2 p (List.mem_filter.1 hm).1⟩
   rcases step_state_cases st op with h | ⟨n, h⟩ | ⟨nw, hn, _, h⟩ | ⟨_, hv, h⟩ | ⟨_, h⟩
-  · rw [h]; exact ⟨hs, hp⟩
-  · rw [h]; exact hdel n
+  · rw [h]; exact ht
+  · rw [h]; exact hdel st n ⟨hs, hp⟩
   · rw [h]
-    refine ⟨sorted_putBy Plugin.name _ (hdel nw.name).1, ?_⟩
+    have hd := hdel (touchSt st op) nw.name ht
+    refine ⟨sorted_putBy Plugin.name _ hd.1, ?_⟩
     intro p hmem
     rcases mem_putBy Plugin.name hmem with rfl | hmem
     · obtain ⟨loc, _, _, _, _, hfiles⟩ := newOf_some hn
       exact ⟨newOf_valid hn, by simp only [hfiles]; exact sorted_copied op loc⟩
-    · exact (hdel nw.name).2 p hmem
+    · exact hd.2 p hmem
   · rw [h]
-    refine ⟨sorted_putBy Plugin.name _ (hdel op.name).1, ?_⟩
+    have hd := hdel st op.name ⟨hs, hp⟩
+    refine ⟨sorted_putBy Plugin.name _ hd.1, ?_⟩
     intro p hmem
     rcases mem_putBy Plugin.name hmem with rfl | hmem
     · exact ⟨hv, topFiles_sorted op.entries⟩
-    · exact (hdel op.name).2 p hmem
+    · exact hd.2 p hmem
   · rw [h]
     unfold rmexe
     constructor
@@ -826,44 +937,51 @@ theorem wf_from_empty (ops : List Op) : WFState (finalState [] ops) :=
   wf_finalState ops ⟨List.Pairwise.nil, fun _ h => by cases h⟩
 
 /-- **no operation of the manager creates a directory that does not answer**: after a step,
-a directory either answers (fetchable by its name, reports metadata), or is exactly as it
-was before the step, or the step was the world planting / damaging that very directory -/
+a directory either answers (fetchable by its name, reports metadata), or a directory of that
+name was there before the step and answered exactly the same, or the step was the world
+planting / damaging that very directory -/
 theorem healthy_step (st : State) (op : Op) (p : Plugin) (hp : p ∈ (step st op).2) :
-    (answer p).isSome = true ∨ p ∈ st ∨ touches op p.name = true := by
+    (answer p).isSome = true ∨ (∃ q ∈ st, q.name = p.name ∧ answer q = answer p) ∨
+      touches op p.name = true := by
+  have same : ∀ {q : Plugin}, q ∈ st → ∃ q' ∈ st, q'.name = q.name ∧ answer q' = answer q :=
+    fun {q} hq => ⟨q, hq, rfl, rfl⟩
+  have touched : p ∈ touchSt st op → ∃ q ∈ st, q.name = p.name ∧ answer q = answer p := by
+    intro h; obtain ⟨q, hq, h1, h2, _⟩ := mem_touchSt h; exact ⟨q, hq, h1, h2⟩
   rcases step_state_cases st op with h | ⟨n, h⟩ | ⟨nw, hn, _, h⟩ | ⟨hk, hv, h⟩ | ⟨hk, h⟩
-  · rw [h] at hp; exact Or.inr (Or.inl hp)
-  · rw [h] at hp; exact Or.inr (Or.inl (List.mem_filter.1 hp).1)
+  · rw [h] at hp; exact Or.inr (Or.inl (touched hp))
+  · rw [h] at hp; exact Or.inr (Or.inl (same (List.mem_filter.1 hp).1))
   · rw [h] at hp
     rcases mem_putBy Plugin.name hp with rfl | hp
     · exact Or.inl (by rw [answer_new hn]; rfl)
-    · exact Or.inr (Or.inl (List.mem_filter.1 hp).1)
+    · exact Or.inr (Or.inl (touched (List.mem_filter.1 hp).1))
   · rw [h] at hp
     rcases mem_putBy Plugin.name hp with rfl | hp
     · exact Or.inr (Or.inr (by simp [touches, hk]))
-    · exact Or.inr (Or.inl (List.mem_filter.1 hp).1)
+    · exact Or.inr (Or.inl (same (List.mem_filter.1 hp).1))
   · rw [h] at hp
     obtain ⟨q, hq, rfl⟩ := List.mem_map.1 hp
     by_cases hn : (q.name == op.name) = true
     · have : q.name = op.name := by simpa using hn
       exact Or.inr (Or.inr (by simp [touches, hk, hn, this]))
-    · simp only [hn]; exact Or.inr (Or.inl hq)
+    · simp only [hn]; exact Or.inr (Or.inl (same hq))
 
 /-- **never half-replaced, over whole histories**: after any sequence of operations, a
-directory that does not answer bears a name the world planted or damaged at some point -
-install / uninstall alone never leave one -/
+directory that does not answer bears a name the world planted or damaged at some point (or
+was there from the start, answering the same) - install / uninstall alone never leave one -/
 theorem never_half_replaced : ∀ (ops : List Op) (st : State) (p : Plugin), p ∈ finalState st ops →
-    (answer p).isSome = true ∨ p ∈ st ∨ ∃ op ∈ ops, touches op p.name = true := by
+    (answer p).isSome = true ∨ (∃ q ∈ st, q.name = p.name ∧ answer q = answer p) ∨
+      ∃ op ∈ ops, touches op p.name = true := by
   intro ops
   induction ops with
-  | nil => intro st p hp; exact Or.inr (Or.inl hp)
+  | nil => intro st p hp; exact Or.inr (Or.inl ⟨p, hp, rfl, rfl⟩)
   | cons op ops ih =>
     intro st p hp
-    rcases ih (step st op).2 p hp with h | h | ⟨o, ho, h⟩
+    rcases ih (step st op).2 p hp with h | ⟨q, hq, hname, hans⟩ | ⟨o, ho, h⟩
     · exact Or.inl h
-    · rcases healthy_step st op p h with h | h | h
-      · exact Or.inl h
-      · exact Or.inr (Or.inl h)
-      · exact Or.inr (Or.inr ⟨op, List.mem_cons_self, h⟩)
+    · rcases healthy_step st op q hq with h | ⟨q', hq', h1, h2⟩ | h
+      · exact Or.inl (by rw [← hans]; exact h)
+      · exact Or.inr (Or.inl ⟨q', hq', h1.trans hname, h2.trans hans⟩)
+      · exact Or.inr (Or.inr ⟨op, List.mem_cons_self, by rw [← hname]; exact h⟩)
     · exact Or.inr (Or.inr ⟨o, List.mem_cons_of_mem _ ho, h⟩)
 
 /-- with install / uninstall only, from the empty root, every directory answers -/
@@ -871,9 +989,9 @@ theorem manager_only_histories_all_answer (ops : List Op)
     (h : ∀ op ∈ ops, op.kind = .install ∨ op.kind = .uninstall) :
     ∀ p ∈ finalState [] ops, (answer p).isSome = true := by
   intro p hp
-  rcases never_half_replaced ops [] p hp with h1 | h1 | ⟨o, ho, h1⟩
+  rcases never_half_replaced ops [] p hp with h1 | ⟨q, hq, _⟩ | ⟨o, ho, h1⟩
   · exact h1
-  · cases h1
+  · cases hq
   · rcases h o ho with hk | hk <;> simp [touches, hk] at h1
 
 /-! ## 4. non-vacuity -/
@@ -985,8 +1103,8 @@ example : errs (seq [plantFoo [⟨.file, t "notation-foo", true, false, 1, some 
     [.ok, .other, .ok, .ok, .ok] := by decide
 
 /-- the source is the installed plugin's own directory / its own executable (also through a
-symbolic link): refused, nothing changes - `equalVersion` without overwrite (the version
-check comes first), the guard with overwrite; from ANOTHER plugin's directory it installs -/
+symbolic link): refused by the guard, with and without overwrite, nothing changes; from
+ANOTHER plugin's directory it installs -/
 private def fromRoot (dirName : String) (isDir : Bool) (es : List Entry) (ow : Bool) (lnk : Bool := false) : Op :=
   ⟨.install, [], ow, isDir, if isDir then t dirName else t "notation-foo", t dirName, lnk, es⟩
 private def selfSrc : Input :=
@@ -994,7 +1112,7 @@ private def selfSrc : Input :=
        fromRoot "foo" false [exeFoo "1.0.0" 1] true true,
        ⟨.plant, t "bar", false, false, [], [], false, [exeFoo "2.0.0" 2, extra "LICENSE" 3]⟩,
        fromRoot "bar" true [exeFoo "2.0.0" 2, extra "LICENSE" 3] false]
-example : errs selfSrc = [.ok, .equalVersion, .other, .other, .ok, .ok] := by decide
+example : errs selfSrc = [.ok, .other, .other, .other, .ok, .ok] := by decide
 example : ((run selfSrc).steps.map (·.root)).getLast? =
     some [⟨t "bar", [fo "LICENSE" 3 false, fo "notation-foo" 2 true], none⟩,
           ⟨t "foo", [fo "LICENSE" 3 false, fo "notation-foo" 2 true], some (t "2.0.0")⟩] := by decide
@@ -1002,6 +1120,32 @@ example : ((run selfSrc).steps.map (·.root)).getLast? =
 example : Holds (seq [instFile "1.0.0" 1, fromRoot "foo" true [exeFoo "1.0.0" 1] true])
     ⟨[⟨.ok, none, some (t "1.0.0"), [⟨t "foo", [fo "notation-foo" 1 true], some (t "1.0.0")⟩], [t "foo"]⟩,
       ⟨.other, none, none, [], []⟩], false, false, none⟩ = false := by decide
+
+/-- the plugin's own directory holds its binary WITHOUT the executable bit (a hand-copied,
+not answering plugin) and is given as the source: refused before anything is touched - the
+binary stays non-executable, the plugin keeps not answering -/
+private def foo644 (v : String) (cid : Nat) : Entry := ⟨.file, t "notation-foo", false, false, cid, some (sFoo v), []⟩
+private def ownNonExec : Input := seq [plantFoo [foo644 "1.0.0" 1], fromRoot "foo" true [foo644 "1.0.0" 1] false]
+example : (run ownNonExec).steps.map (fun s => (s.err, s.root)) =
+    [(.ok, [⟨t "foo", [fo "notation-foo" 1 false], none⟩]), (.other, [⟨t "foo", [fo "notation-foo" 1 false], none⟩])] := by
+  decide
+/-- what the code did before the repair (chmod inside `parsePluginFromDir`, before every
+check): the installation is refused (`equalVersion`: it now compares the plugin with itself)
+but the binary got the executable bit and the plugin answers. `Holds` is false of it. -/
+example : Holds ownNonExec
+    ⟨[⟨.ok, none, none, [⟨t "foo", [fo "notation-foo" 1 false], none⟩], [t "foo"]⟩,
+      ⟨.equalVersion, none, none, [⟨t "foo", [fo "notation-foo" 1 true], some (t "1.0.0")⟩], [t "foo"]⟩],
+     false, false, none⟩ = false := by decide
+/-- the source is ANOTHER plugin's directory with a non-executable candidate: accepted name and
+location, so the candidate gets the bit (the one write outside the plugin's own directory),
+then the version check refuses: only that bit of `<root>/bar/notation-foo` differs, `bar`
+and `foo` answer what they answered -/
+example : (run (seq [instFile "2.0.0" 1, ⟨.plant, t "bar", false, false, [], [], false, [foo644 "1.0.0" 2]⟩,
+      fromRoot "bar" true [foo644 "1.0.0" 2] false])).steps.map (fun s => (s.err, s.root)) =
+    [(.ok, [⟨t "foo", [fo "notation-foo" 1 true], some (t "2.0.0")⟩]),
+     (.ok, [⟨t "bar", [fo "notation-foo" 2 false], none⟩, ⟨t "foo", [fo "notation-foo" 1 true], some (t "2.0.0")⟩]),
+     (.downgrade, [⟨t "bar", [fo "notation-foo" 2 true], none⟩, ⟨t "foo", [fo "notation-foo" 1 true], some (t "2.0.0")⟩])] := by
+  decide
 
 /-- a downgrade that "succeeds" violates the version rule clause -/
 example : Holds (seq [instFile "1.1.0" 1, instFile "1.0.0" 2])
